@@ -143,6 +143,9 @@ class BaseDriver:
             N/A
 
         """
+        # an explicitly provided port always wins, the ssh config file is only consulted without one
+        port_provided = port is not None
+
         if port is None:
             port = 22
             if "telnet" in transport:
@@ -204,7 +207,7 @@ class BaseDriver:
             # for mostly(?) historical reasons these transports use the `ssh_config` module to get
             # port/username/key file. asyncssh may not need this at all anymore as asyncssh core
             # has added ssh config file support since scrapli's inception
-            self._update_ssh_args_from_ssh_config()
+            self._update_ssh_args_from_ssh_config(update_port=not port_provided)
 
         transport_class, self._plugin_transport_args = self._transport_factory()
 
@@ -392,12 +395,13 @@ class BaseDriver:
 
         return resolved_ssh_config_file, resolved_ssh_known_hosts_file
 
-    def _update_ssh_args_from_ssh_config(self) -> None:
+    def _update_ssh_args_from_ssh_config(self, update_port: bool = True) -> None:
         """
         Update ssh args based on ssh config file data
 
         Args:
-            N/A
+            update_port: True/False use the port of the ssh config file; should be False when the
+                user explicitly provided a port
 
         Returns:
             None
@@ -409,16 +413,13 @@ class BaseDriver:
         ssh = ssh_config_factory(ssh_config_file=self.ssh_config_file)
         host_config = ssh.lookup(host=self.host)
 
-        if host_config.port:
+        if host_config.port and update_port:
             self.logger.info(
                 f"found port for host in ssh configuration file, using this value "
                 f"'{host_config.port}' for port!"
             )
-            # perhaps this should not override already set port because we dont know if the user
-            # provided the port or we just are accepting the default port value... in any case for
-            # port, if it is in the ssh config file we will override whatever we currently have
-            # the transport has already been handed the port via the base transport args, so keep
-            # those in sync with what we report
+            # only override the port if the user did not provide one; the transport has already been
+            # handed the port via the base transport args, so keep those in sync with what we report
             self.port = host_config.port
             self._base_transport_args.port = host_config.port
         if host_config.user and not self.auth_username:
